@@ -276,7 +276,12 @@ Definition model_agrees (k : case) : bool :=
 
 (** The property itself, evaluated on what the real code returned: the contract
     clauses on the result of the first insertion order, and equality (within the
-    slack) of the results of all other insertion orders with it. *)
+    slack) of the results of all other insertion orders with it.  On a case that the
+    model places next to a rounding cliff (class 2: e.g. remainders that tie in exact
+    arithmetic and are told apart only by float rounding) different insertion orders
+    may legitimately yield different results in floating point; there every
+    differing result must satisfy the contract clauses itself.  (The harness counts
+    such cases as [orders_differ_substantially].) *)
 Definition rc_eps (kv : Q) (rc : rcase) : Q :=
   match rc_class kv rc with 0%nat => 0 | _ => cliff end.
 
@@ -285,17 +290,23 @@ Definition agree (eps : Q) (o1 o2 : list (positive * Q)) : bool :=
   && forallb (fun uf => match look o2 (fst uf) with
                         | Some f => close eps f (snd uf) | None => false end) o1.
 
+Definition obs_contract (eps kv : Q) (rc : rcase) (o : list (positive * Q)) : bool :=
+  (List.length o =? List.length (rc_queues rc))%nat
+  && match pair_with (look o) (rc_queues rc) with
+     | None => false
+     | Some l => contract_ok eps (rc_total rc) kv l
+     end.
+
 Definition rc_monitor (kv : Q) (rc : rcase) : bool :=
+  let cls := rc_class kv rc in
   let eps := rc_eps kv rc in
   match rc_obs rc with
   | [] => false
   | o1 :: rest =>
-      (List.length o1 =? List.length (rc_queues rc))%nat
-      && match pair_with (look o1) (rc_queues rc) with
-         | None => false
-         | Some l => contract_ok eps (rc_total rc) kv l
-         end
-      && forallb (agree eps o1) rest
+      obs_contract eps kv rc o1
+      && forallb (fun o => agree eps o1 o
+                           || (match cls with 2%nat => true | _ => false end
+                               && obs_contract eps kv rc o)) rest
   end.
 
 Definition monitor_ok (k : case) : bool :=
@@ -313,3 +324,7 @@ Definition run_classes (cs : list (nat * case)) : nat * nat * nat :=
         match rc_class (k_kvalue (snd c)) rc with
         | 0%nat => (S x, y, z) | 1%nat => (x, S y, z) | _ => (x, y, S z) end)
        (k_res (snd c)) acc) cs (0%nat, 0%nat, 0%nat).
+
+(** bin/check reads the failing indices as [<n>%nat]: keep a numeral scope other
+    than nat open in the files that import this one (as Run/C19.v does). *)
+Open Scope Z_scope.
